@@ -536,6 +536,8 @@ package jsonpatch
 //@   ensures[C06] absent-operand: o == nil ==> (result <==> old(n.which == eRaw && (n.raw == nil || kind(val(*n.raw)) == KNull)))
 //@   ensures[C06] null-equals-only-null: o != nil && old(n.which == eRaw && o.which == eRaw && n.raw != nil && o.raw != nil && (kind(val(*n.raw)) == KNull || kind(val(*o.raw)) == KNull)) ==> (result <==> old(kind(val(*n.raw)) == KNull && kind(val(*o.raw)) == KNull))
 //@   ensures[C06] strings-by-value: o != nil && old(n.which == eRaw && o.which == eRaw && n.raw != nil && o.raw != nil && kind(val(*n.raw)) == KStr && kind(val(*o.raw)) == KStr) ==> (result <==> old(strval(val(*n.raw)) == strval(val(*o.raw))))
+//@   ensures[C06] numbers-and-booleans-by-their-text: o != nil && old(n.which == eRaw && o.which == eRaw && n.raw != nil && o.raw != nil && (kind(val(*n.raw)) == KNum || kind(val(*n.raw)) == KBool) && (kind(val(*o.raw)) == KNum || kind(val(*o.raw)) == KBool)) ==> (result <==> old(compactOf(bytes(*n.raw)) == compactOf(bytes(*o.raw))))
+//@   ensures[C06] scalar-kinds-differ: o != nil && old(n.which == eRaw && o.which == eRaw && n.raw != nil && o.raw != nil && kind(val(*n.raw)) != KObj && kind(val(*n.raw)) != KArr && kind(val(*n.raw)) != kind(val(*o.raw))) ==> !result
 //@   ensures[C06] object-vs-other: o != nil && old(n.raw != nil && o.raw != nil && n.which == eRaw && o.which == eRaw && kind(val(*n.raw)) == KObj && kind(val(*o.raw)) != KObj) ==> !result
 //@   ensures[C06] array-vs-other: o != nil && old(n.raw != nil && o.raw != nil && n.which == eRaw && o.which == eRaw && kind(val(*n.raw)) == KArr && kind(val(*o.raw)) != KArr) ==> !result
 //@   ensures[C06] objects-same-members: o != nil && result && n.which == eDoc ==> o.which == eDoc && len(n.doc.obj) == len(o.doc.obj) && (forall k string {n.doc.obj[k]} {domsel(n.doc.obj, k)} :: k in n.doc.obj ==> k in o.doc.obj && ((n.doc.obj[k] == nil) <==> (o.doc.obj[k] == nil)))
@@ -559,6 +561,10 @@ package jsonpatch
 //@ func Equal
 //@   modifies region(lazyNode.which), region(lazyNode.doc), region(lazyNode.ary), region(lazyNode.raw), region(partialDoc.obj), region(partialDoc.keys), region(partialDoc.opts), region(partialDoc.self), region(partialArray.nodes), region(partialArray.self), region(elem string), region(elem *lazyNode), region(map map[string]*lazyNode), region(cell int64), region(cell container), region(cell any), region(json.scanner.step), region(json.scanner.err), region(json.scanner.endTop), region(json.scanner.bytes), region(json.scanner.parseState), region(elem int), ghost(BufContent)
 //@   ensures[C06,C16] ill-formed: !wf(a) || !wf(b) ==> !result
+//@   ensures[C06] null-root-equals-only-null: wf(a) && wf(b) && (kind(val(bytes(a))) == KNull || kind(val(bytes(b))) == KNull) ==> (result <==> (kind(val(bytes(a))) == KNull && kind(val(bytes(b))) == KNull))
+//@   ensures[C06] string-roots-by-value: wf(a) && wf(b) && kind(val(bytes(a))) == KStr && kind(val(bytes(b))) == KStr ==> (result <==> strval(val(bytes(a))) == strval(val(bytes(b))))
+//@   ensures[C06] number-and-boolean-roots-by-their-text: wf(a) && wf(b) && (kind(val(bytes(a))) == KNum || kind(val(bytes(a))) == KBool) && (kind(val(bytes(b))) == KNum || kind(val(bytes(b))) == KBool) ==> (result <==> compactOf(bytes(a)) == compactOf(bytes(b)))
+//@   ensures[C06] roots-of-different-kinds-differ: wf(a) && wf(b) && kind(val(bytes(a))) != kind(val(bytes(b))) ==> !result
 
 // ---- EnsurePathExistsOnAdd (C14) ----
 
